@@ -2,7 +2,7 @@
     closed-form gradients of Model.v, the closed forms are the partial derivatives of the
     documented objectives (Coquelicot), and facts about the label coding / probability /
     decision models. *)
-From Coq Require Import List NArith ZArith QArith Qreals Reals Bool Lra Lia Floats.
+From Coq Require Import List NArith ZArith QArith Qreals Reals Bool Lra Lia Floats Permutation.
 From Interval Require Import Xreal Interval.
 From Coquelicot Require Import Coquelicot.
 From LinfaVerif Require Import Common.Num Common.NdSum Common.QF Common.IvEval C12.Model C12.Checker.
@@ -1368,4 +1368,20 @@ Proof.
     match goal with |- Rabs ?e <= 0 => replace e with 0 by field end. rewrite Rabs_R0. lra.
   - repeat match goal with |- context [exp ?t] => replace t with 0 by ring; rewrite exp_0 end.
     match goal with |- Rabs ?e <= 0 => replace e with 0 by field end. rewrite Rabs_R0. lra.
+Qed.
+
+(** * The objectives do not depend on the order of the samples *)
+Lemma Rsum_perm (l l' : list R) : Permutation l l' -> Rsum l = Rsum l'.
+Proof. unfold Rsum. induction 1; simpl; lra. Qed.
+
+Lemma glin_obj_perm (ell : R -> R -> R) c X y X' y' w b :
+  Permutation (combine X y) (combine X' y') -> glin_obj ell c X y w b = glin_obj ell c X' y' w b.
+Proof.
+  intros H. unfold glin_obj. f_equal. apply Rsum_perm. apply Permutation_map. exact H.
+Qed.
+
+Lemma multi_loss_perm k alpha X y X' y' W b :
+  Permutation (combine X y) (combine X' y') -> multi_loss k alpha X y W b = multi_loss k alpha X' y' W b.
+Proof.
+  intros H. unfold multi_loss. f_equal. apply Rsum_perm. apply Permutation_map. exact H.
 Qed.
